@@ -15,6 +15,11 @@ pub struct C06 {
     pub families: Vec<(&'static str, u64)>,
 }
 
+/// (number of runs, run length, first value, one trailing value continuing the last run)
+const RUNS6: [(usize, usize, usize, bool); 8] = [(8, 2, 0, false), (8, 2, 1, true), (6, 3, 0, false), (6, 3, 1, true), (5, 4, 0, false), (4, 5, 0, true), (3, 6, 1, false), (2, 8, 0, true)];
+fn fact6(n: usize) -> u64 {
+    (1..=n as u64).product()
+}
 fn ffv(f: &(Vec<usize>, usize)) -> FF {
     ff(&f.0, f.1)
 }
@@ -95,6 +100,7 @@ impl C06 {
             ("semifinite", nf * 6),
             ("coequalizer_structured", 0), // filled in below
             ("wide_codomains", 3 * LARGE.len() as u64 * 40),
+            ("compose_permuted_runs", RUNS6.iter().map(|c| fact6(c.0)).sum::<u64>()),
         ];
         let mut families = families;
         let ng = structured_graphs().len() as u64 + (LARGE.len() * 6) as u64;
@@ -489,6 +495,54 @@ impl C06 {
                     let y = *m2.entry(q.table.0[j]).or_insert(rq[j]);
                     ensure(x == q.table.0[j] && y == rq[j], || format!("coequalizer on {} elements with {} pairs puts element {} in the wrong class", n, pairs.len(), j))?;
                 }
+                Ok(true)
+            }
+            "compose_permuted_runs" => {
+                // left tables of length 16 .. 25 that are piecewise consecutive - k runs of b consecutive values in EVERY
+                // order of the runs (injections in a permuted order, block permutations) - composed with a function, with
+                // labels and with their own inverse: pointwise application
+                let mut r = i;
+                let mut cfg = RUNS6[0];
+                for c in RUNS6.iter() {
+                    if r < fact6(c.0) {
+                        cfg = *c;
+                        break;
+                    }
+                    r -= fact6(c.0);
+                }
+                let (k, b, off, tail) = cfg;
+                let mut pool: Vec<usize> = (0..k).collect();
+                let mut order = vec![];
+                let mut rr = r;
+                for m in (1..=k).rev() {
+                    let f = fact6(m - 1);
+                    order.push(pool.remove((rr / f) as usize));
+                    rr %= f;
+                }
+                let mut t: Vec<usize> = order.iter().flat_map(|&blk| (0..b).map(move |j| off + blk * b + j)).collect();
+                if tail {
+                    t.push(off + k * b);
+                }
+                let cod = off + k * b + 2;
+                let x = ffv(&(t.clone(), cod));
+                let gt: Vec<usize> = (0..cod).map(|j| (5 * j + 1) % 7).collect();
+                let y = ffv(&(gt.clone(), 7));
+                let e: Vec<usize> = t.iter().map(|&j| gt[j]).collect();
+                for (nm, r) in [("compose", Arrow::compose(&x, &y)), (">>", &x >> &y)] {
+                    match r {
+                        Some(r) => ensure(same_ff(&r, &e, 7), || format!("({}) {} (5j+1 mod 7) = {}", show(&x), nm, show(&r)))?,
+                        None => return Err(format!("({}) {} (.. -> 7) refused", show(&x), nm)),
+                    }
+                }
+                let labels: Vec<String> = (0..cod).map(|j| format!("w{}", j)).collect();
+                let sfn: SF<String> = SemifiniteFunction::new(Arr(labels.clone()));
+                for (nm, r) in [("compose_semifinite", open_hypergraphs::semifinite::compose_semifinite(&x, &sfn)), (">>", &x >> &sfn)] {
+                    match r {
+                        Some(r) => ensure(r.0 .0 == t.iter().map(|&j| labels[j].clone()).collect::<Vec<_>>(), || format!("({}) {} distinct labels = {:?}", show(&x), nm, r.0 .0))?,
+                        None => return Err(format!("({}) {} labels refused", show(&x), nm)),
+                    }
+                }
+                ensure(x.is_injective(), || format!("({}).is_injective() = false", show(&x)))?;
                 Ok(true)
             }
             "wide_codomains" => {
